@@ -202,6 +202,27 @@ Section C10.
     Forall2 (fun b b' => forall x y, den b x = Some y -> den b' y = Some x) l l' ->
     forall x y, den (Block i BDiag td l) x = Some y -> den (Block i' BDiag td l') y = Some x.
   Proof. exact (BlocksL.blockdiag_inverse_sound K kadd kmul leafsem). Qed.
+
+  (* ---------- lazy wrappers as blocks; sequences op.T.I, op.I.T, op.I.I, ... ---------- *)
+  (* the inverse of a lazily TRANSPOSED block (TransposeOperator(x), x.T of a class without its own transpose) is
+     the lazy inverse of that transpose - never the wrapped operator x *)
+  Theorem lazy_transpose_inverse : forall fuel order i (x e' : op K),
+    binv k1 kmul keqb kinv fuel order (Wrap i WTranspose x) = Ok e' ->
+    is_square (Wrap i WTranspose x) = true /\
+    exists r, reduce keqb k1 kmul fuel order (Wrap i WTranspose x) = Ok r /\ e' = Wrap fresh WInverse r.
+  Proof. exact (BlocksL.lazy_transpose_inverse K k1 kmul kinv keqb). Qed.
+  (* only the lazy INVERSES (InverseOperator, DiagonalInverseOperator, the orthogonal lazy transposes) give back
+     the operator they hold *)
+  Theorem lazy_inverse_inverse : forall fuel order i w (x : op K),
+    isinst (wcls w) [CAbstractLazyInverse] = true -> binv k1 kmul keqb kinv fuel order (Wrap i w x) = Ok x.
+  Proof. exact (BlocksL.lazy_inverse_inverse K k1 kmul kinv keqb). Qed.
+  (* any sequence of .T / .I on a block-diagonal operator is taken block by block, in the same container, as
+     long as every list of blocks met by an inverse is a list of square blocks (steps [ST; SI] e = e.T.I) *)
+  Theorem blockdiag_steps : forall fuel order s i td l e',
+    square_along k1 kmul keqb kinv fuel order s l ->
+    (steps k1 kmul keqb kinv fuel order s (Block i BDiag td l) = Ok e' <->
+     exists l', mapM (steps k1 kmul keqb kinv fuel order s) l = Ok l' /\ e' = Block (oid_after s i) BDiag td l').
+  Proof. exact (BlocksL.blockdiag_steps K k1 kmul kinv keqb). Qed.
 End C10.
 Print Assumptions blockdiag_spec.
 Print Assumptions blockcol_spec.
@@ -236,6 +257,9 @@ Print Assumptions row_col_is_sum.
 Print Assumptions blockdiag_inverse.
 Print Assumptions blockdiag_inverse_default.
 Print Assumptions blockdiag_inverse_sound.
+Print Assumptions lazy_transpose_inverse.
+Print Assumptions lazy_inverse_inverse.
+Print Assumptions blockdiag_steps.
 
 (* non-vacuity: the hypotheses are met by concrete operators over Z *)
 Example c10_example :
@@ -272,6 +296,22 @@ Example c10_container_mismatch_example :
   refused (col s (Node KTuple [s])) = true /\ refused (row (Node KTuple [s]) s) = true /\
   refused (col (Node KTuple [Node KTuple [s; s]; s]) (Node KTuple [s; Node KTuple [s; s]])) = true.
 Proof. vm_compute. repeat split. Qed.
+
+(* lazy wrappers as blocks: diag(A.T, D^-1) with A a user-defined 2x2 operator (lazy transpose) and D^-1 a
+   DiagonalInverseOperator; .I gives diag(InverseOperator(A.T), D), .T.I gives diag(InverseOperator(A), D),
+   .I.I gives back the blocks; the hypothesis of blockdiag_steps holds along [SI; SI] *)
+Example c10_wrapper_blocks_example :
+  let s := Leaf (mkSds [2] 0) in
+  let a : op Z := Prim 1%N CAtom s s (PKey 2%N) in let at_ := Wrap 2%N WTranspose a in
+  let d : op Z := Prim 3%N CDiagonal s s (PKey 6%N) in let di := Wrap 4%N WDiagInv d in
+  let td := Node (KDict ["x"; "y"]%string) [Leaf tt; Leaf tt] in
+  let st := steps 1%Z Z.mul Z.eqb (fun k => k) 12 default_order in
+  st [SI] (Block 5%N BDiag td [at_; di]) = Ok (Block fresh BDiag td [Wrap fresh WInverse at_; d]) /\
+  st [ST; SI] (Block 5%N BDiag td [at_; di]) = Ok (Block fresh BDiag td [Wrap fresh WInverse a; d]) /\
+  st [SI; SI] (Block 5%N BDiag td [at_; di]) = Ok (Block fresh BDiag td [at_; Wrap fresh WDiagInv d]) /\
+  st [SI; ST] (Block 5%N BDiag td [at_; di]) = Ok (Block fresh BDiag td [Wrap fresh WTranspose (Wrap fresh WInverse at_); d]) /\
+  square_along 1%Z Z.mul Z.eqb (fun k => k) 12 default_order [SI; SI] [at_; di].
+Proof. vm_compute. repeat split. intros l' H; inversion H; subst; repeat split. intros l' H'; exact I. Qed.
 
 Example c10_acts_as_witness :
   let s := Leaf (mkSds [2] 0) in
